@@ -572,7 +572,15 @@ new_name:
                 define_new_variable($2, current_type | $1 | global_modifiers);
                 scratch_free($2);
             }
-    |   optional_star identifier L_ASSIGN expr0
+    |   optional_star identifier L_ASSIGN
+            {
+                /* An initializer is not in the body of a function. Whether it is type
+                 * checked is decided by the pragma in effect here, like for a function
+                 * without a declared type, and not by the function that happens to have
+                 * been compiled last - possibly in the file compiled before this one. */
+                exact_types = (pragmas & PRAGMA_STRICT_TYPES) ? TYPE_ANY : 0;
+            }
+        expr0
             {
                 parse_node_t *expr;
                 int type = 0;
@@ -586,22 +594,22 @@ new_name:
                     type = (current_type | $1 | global_modifiers) & ~NAME_TYPE_MOD;
                     if ((current_type & ~NAME_TYPE_MOD) == TYPE_VOID)
                         yyerror("Illegal to declare global variable of type void.");
-                    if (!compatible_types(type, $4->type)) {
+                    if (!compatible_types(type, $5->type)) {
                         char buff[256];
                         char *end = EndOf(buff);
                         char *p;
                         
                         p = strput(buff, end, "Type mismatch ");
-                        p = get_two_types(p, end, type, $4->type);
+                        p = get_two_types(p, end, type, $5->type);
                         p = strput(p, end, " when initializing ");
                         p = strput(p, end, $2);
                         yyerror(buff);
                     }
                 }
                 switch_to_block(A_INITIALIZER);
-                $4 = do_promotions($4, type);
+                $5 = do_promotions($5, type);
 
-                CREATE_BINARY_OP(expr, F_VOID_ASSIGN, 0, $4, 0);
+                CREATE_BINARY_OP(expr, F_VOID_ASSIGN, 0, $5, 0);
                 CREATE_OPCODE_1(expr->r.expr, F_GLOBAL_LVALUE, 0,
                                 check_global_index(define_new_variable($2, current_type | $1 | global_modifiers)));
                 generate(expr);
